@@ -44,6 +44,7 @@ type Contract struct {
 	File     string
 	Line     int
 	NoInline bool
+	GhostInc []string // ghost counters incremented by one on entry (ghost code of the function)
 	Inl      bool // callers inline the body instead of using the contract
 	Witness  []string
 	Lemmas   []*Clause
@@ -185,10 +186,15 @@ func (e *Engine) loadContractFile(path, pkgShort string) error {
 		if j := strings.Index(t, " // "); j >= 0 {
 			t = strings.TrimSpace(t[:j])
 		}
+		if isSpec {
+			if j := strings.Index(t, "  # "); j >= 0 {
+				t = strings.TrimSpace(t[:j])
+			}
+		}
 		lines = append(lines, logical{t, i + 1})
 	}
 	isStart := func(s string) bool {
-		for _, k := range []string{"func ", "trusted func ", "interface ", "spec ", "ghostvar ", "requires", "ensures", "modifies", "loop ", "ghost ", "also", "pure", "noinline", "inline", "witness ", "lemma ", "assert", "at "} {
+		for _, k := range []string{"func ", "trusted func ", "interface ", "spec ", "ghostvar ", "requires", "ensures", "modifies", "loop ", "ghost ", "also", "pure", "noinline", "inline", "ghostinc ", "witness ", "lemma ", "assert", "at "} {
 			if strings.HasPrefix(s, k) {
 				return true
 			}
@@ -215,7 +221,7 @@ func (e *Engine) loadContractFile(path, pkgShort string) error {
 			if len(w) != 3 {
 				return fmt.Errorf("%s:%d: ghostvar needs name and sort", path, l.line)
 			}
-			srt := map[string]string{"int": SInt, "bool": SBool, "seq": SSeq, "ref": SRef}[w[2]]
+			srt := map[string]string{"int": SInt, "bool": SBool, "seq": SSeq, "ref": SRef, "bytes": "bytes"}[w[2]]
 			if srt == "" {
 				return fmt.Errorf("%s:%d: unknown ghost sort %s", path, l.line, w[2])
 			}
@@ -276,6 +282,8 @@ func (e *Engine) loadContractFile(path, pkgShort string) error {
 			cur.Cases = append(cur.Cases, curCase)
 		case t == "pure":
 			cur.Pure = true
+		case strings.HasPrefix(t, "ghostinc "):
+			cur.GhostInc = append(cur.GhostInc, strings.TrimSpace(t[len("ghostinc "):]))
 		case t == "noinline":
 			cur.NoInline = true
 		case t == "inline":
